@@ -24,6 +24,8 @@ def parity_locate(arr, c, lev, pos):
         return paths[0], pos * bs
     off = pos * bs
     for s, sp in enumerate(par.splits):
+        if sp.size is None:
+            return (paths[s], off) if s < len(paths) else None
         if off < sp.size:
             return (paths[s], off) if s < len(paths) else None
         off -= sp.size
